@@ -1504,7 +1504,9 @@ class ClusterLayout(Harness):
               '(c,s) and literal 30 / -45.5; tolerance 1e-11 relative')
     stubs = ('np.max over |.|: comparison on squared keys', )
     assumptions = ('floats are exact reals', )
-    outside = ('wrap-around cells (create_wrap_around_cells)', 'plotting / '
+    outside = ('positions / outlines of the wrapped cell copies themselves '
+               '(the distance matrices after create_wrap_around_cells are '
+               'checked in `distances`)', 'plotting / '
                'cluster outline (_get_outer_vertexes uses np.angle and '
                'rounding)', 'Grid of clusters',
                'overlap of the non-convex 3-sector outlines')
